@@ -22,7 +22,7 @@
   * `RunOptsR`: `RunOpts` with `o.reverse = true` in place of `= false`.  Nothing is asked of `--ignore-reversed` / `-N` / `-f` /
     `-t`: `C05_core` needs none of it — every hunk applies at its stated place without fuzz, no question is reached.
   * the target: `htarget` (its bytes `newbytes`) + `hnew : splitLines newbytes = splice (splitLines bytes) 0 hs` — the tree holds
-    a file whose LINES are the result of the diff.  (`newbytes := renderLines .keep (splice …)` is the canonical such file when the
+    a file whose LINES are the result of the diff.  (`newbytes := Render.renderText .keep (splice …)` is the canonical such file when the
     lines are ones `splitLines` can produce; `C05_roundtrip_run` meets it with the file the forward run wrote.)
   * NOT needed: the reversed-D2 exclusion `NoReversedD2` of `C05_core` ("no hunk states `+0,0` while the new file is not empty" —
     reversed, such a hunk is a context-free insertion at line 0 of a non-empty file, which the program rejects: known finding D2's
@@ -32,7 +32,8 @@
     `NeedsChangeStart` below — the diff that removes the first line, `@@ -1 +0,0 @@`, of a two-line file applies forward (exit 0)
     and is REJECTED in reverse (exit 1, target untouched, a reject file).
   * `C05_roundtrip_run`: `pname ≠ name` (the forward run must not overwrite the patch file) and `hrt`: the file written by the
-    forward run is read back as the lines written (`splitLines (renderLines o.newlineOutput new) = new`); it holds whenever the
+    forward run is read back as the lines written (`splitLines (Render.renderText o.newlineOutput new) = new`; `renderText`, the bytes
+    written since D97, is `renderLines` when only the last line may lack its newline); it holds whenever the
     new lines are LF-terminated, without CR at the end, and the mode is not `crlf` (`RunR.splitLines_renderLines_lf`, used by
     `C05_roundtrip_run_bytes`).  It is REQUIRED: `NeedsReadBack` below — forward with `--newline-output=crlf`, the reverse run
     then finds CR LF lines where the diff states LF lines, and every hunk is rejected (exit 1).
@@ -79,7 +80,7 @@ theorem reverseSection_of_valid (o : Options) (fmt : Format) (s : DState) (p byt
     C05_core (splitLines bytes) hs { patch0 with hunks := hs } (applyOptsOf o)
       (Option.map (fun l => List.map (fun a => !List.isEmpty a && List.head? a != some 110) l) s.tty)
       hvalid hx rfl ho.noDefine hrev ho.fuzz
-  refine ⟨r, ?_, by rw [render, hrout]⟩
+  refine ⟨r, ?_, Render.render_of_map_line _ hrout (Render.linesTerminated_splitLines bytes)⟩
   exact {
     operand := ho.operand, noOut := ho.noOut, noBackup := ho.noBackup, pathNe := hp, cwd := hcwd, hdr := hhdr,
     fmt := hfmt, op := hop, pre := hpre, body := hbody, file := hfile,
@@ -154,7 +155,7 @@ theorem C01_run_state (ho : RunOpts o name pname) (hreal : o.dryRun = false) (hs
     (hpatch : s0.fs.lookup pname = some (.file (patchText filler old new oldt newt hs) pm))
     (hd : UnifiedDiff filler old new oldt newt hs) (hvalid : Valid (splitLines bytes) 0 0 hs) :
     ∃ s', runPatch o s0 = (0, s') ∧
-      s'.fs = s0.fs.set name (.file (renderLines o.newlineOutput (splice (splitLines bytes) 0 hs)) m) ∧ CleanStart s' := by
+      s'.fs = s0.fs.set name (.file (Render.renderText o.newlineOutput (splice (splitLines bytes) 0 hs)) m) ∧ CleanStart s' := by
   obtain ⟨patch0, info, par1, par2, r, H, hrender, heof⟩ := plainSection_of_diff ho hs0 hname htarget hw hd hvalid
   obtain ⟨s', hrun, hfs, _, hdone⟩ := processSection_clean H hreal hdir
   refine ⟨s', runPatch_of_section ho.file hs0 hpn hpd hpatch hd s' par2 false hrun hdone heof, ?_,
@@ -269,7 +270,7 @@ theorem C05_roundtrip_run (o oR : Options) (s0 : DState) (name pname bytes oldt 
     (hot : stampOk oldt) (hnt : stampOk newt)
     (hpatch : s0.fs.lookup pname = some (.file (diffText name name oldt newt hs) pm))
     (hh : DiffHunks hs) (hvalid : Valid (splitLines bytes) 0 0 hs)
-    (hrt : splitLines (renderLines o.newlineOutput (splice (splitLines bytes) 0 hs)) = splice (splitLines bytes) 0 hs) :
+    (hrt : splitLines (Render.renderText o.newlineOutput (splice (splitLines bytes) 0 hs)) = splice (splitLines bytes) 0 hs) :
     (runPatch o s0).1 = 0 ∧ (runPatch oR (runPatch o s0).2).1 = 0 ∧
     (runPatch oR (runPatch o s0).2).2.fs.lookup name =
       some (.file (renderLines oR.newlineOutput (splitLines bytes)) m) ∧
@@ -279,7 +280,7 @@ theorem C05_roundtrip_run (o oR : Options) (s0 : DState) (name pname bytes oldt 
   obtain ⟨s1, hrun1, hfs1, hclean1⟩ := C01_run_state (filler := []) ho hreal hs0 hn.1
     (dirExists_parent_of_noSlash s0.fs hn.2.1) hpn hpd htarget hw hpatch' hd hvalid
   have htarget1 : s1.fs.lookup name =
-      some (.file (renderLines o.newlineOutput (splice (splitLines bytes) 0 hs)) m) := by
+      some (.file (Render.renderText o.newlineOutput (splice (splitLines bytes) 0 hs)) m) := by
     rw [hfs1, Fs.lookup_set_self]
   have hpatch1 : s1.fs.lookup pname = some (.file (patchText [] name name oldt newt hs) pm) := by
     rw [hfs1, Fs.lookup_set_ne _ _ _ _ hne]; exact hpatch'
@@ -310,7 +311,13 @@ theorem C05_roundtrip_run_bytes (o oR : Options) (s0 : DState) (name pname bytes
     (runPatch o s0).1 = 0 ∧ (runPatch oR (runPatch o s0).2).1 = 0 ∧
     ∀ q, (runPatch oR (runPatch o s0).2).2.fs.lookup q = s0.fs.lookup q := by
   obtain ⟨h1, h2, h3, h4⟩ := C05_roundtrip_run o oR s0 name pname bytes oldt newt m pm hs ho hoR hreal hrealR hs0 hn hpn hpd hne
-    htarget hw hot hnt hpatch hh hvalid (splitLines_renderLines_lf _ hmode _ hlf)
+    htarget hw hot hnt hpatch hh hvalid
+    (by rw [Render.renderText_eq_renderLines _ _ (Render.linesTerminated_of_all (fun l hl => by
+          have := hlf l hl
+          unfold lfPlain at this
+          simp only [Bool.and_eq_true, beq_iff_eq] at this
+          rw [this.1]; simp))]
+        exact splitLines_renderLines_lf _ hmode _ hlf)
   refine ⟨h1, h2, ?_⟩
   intro q
   by_cases hq : q = name
@@ -441,7 +448,7 @@ namespace NeedsReadBack
 open InstanceR (name pname bytes hk)
 def oF : Options := { C01.Instance.o with newlineOutput := .crlf }
 
-theorem readBack_fails : splitLines (renderLines oF.newlineOutput (splice (splitLines bytes) 0 [hk])) ≠
+theorem readBack_fails : splitLines (Render.renderText oF.newlineOutput (splice (splitLines bytes) 0 [hk])) ≠
     splice (splitLines bytes) 0 [hk] := by decide
 
 #guard (runPatch oF C01.Instance.s0).1 == 0
